@@ -485,6 +485,21 @@ def _type_check_field_location(location, source_file_name, errors):
     _type_check_integer(location.size, source_file_name, errors, "Size of field")
 
 
+def _type_check_enum_value(enum_value, source_file_name, errors):
+    # An enum value may be an integer or a reference to another enum value
+    # (`TEN = TEN2`); anything else (e.g., `TEN = true`) is an error.
+    if enum_value.value.type.which_type not in ("integer", "enumeration"):
+        errors.append(
+            [
+                error.error(
+                    source_file_name,
+                    enum_value.value.source_location,
+                    "Enum value must be an integer.",
+                )
+            ]
+        )
+
+
 def _type_check_field_existence_condition(field, source_file_name, errors):
     _type_check_boolean(
         field.existence_condition, source_file_name, errors, "Existence condition"
@@ -648,6 +663,12 @@ def check_types(ir):
         ir,
         [ir_data.Field],
         _type_check_field_existence_condition,
+        parameters={"errors": errors},
+    )
+    traverse_ir.fast_traverse_ir_top_down(
+        ir,
+        [ir_data.EnumValue],
+        _type_check_enum_value,
         parameters={"errors": errors},
     )
     traverse_ir.fast_traverse_ir_top_down(
